@@ -596,40 +596,40 @@ _RULE_NET = ("real components over a real Network whose per-message link delays 
              "at times 0..24 ticks; store latencies 0..4 ticks. ")
 
 OBLIGATIONS = [
-    Obligation("primary-backup", pb_strategy(False), ex_pb, {"quick": 700, "thorough": 100000},
+    Obligation("primary-backup", pb_strategy(False), ex_pb, {"quick": 520, "thorough": 100000},
                _RULE_NET + "PrimaryNode + 1..3 BackupNodes in ASYNC/SEMI_SYNC/SYNC; ack clause judged at the instant "
                "each reply future resolves, convergence at quiescence. Non-trivial = at some backup two Replicate "
                "messages for one key were delivered in inverted seq order."),
-    Obligation("primary-backup-safe", pb_strategy(True), ex_pb, {"quick": 350, "thorough": 40000},
+    Obligation("primary-backup-safe", pb_strategy(True), ex_pb, {"quick": 260, "thorough": 40000},
                "same model, restricted domain: consecutive writes to one key are 128 ticks apart (never two in flight), "
                "write latency >= 1 tick; no exclusions. Non-trivial = some key written at least twice."),
-    Obligation("chain", chain_strategy(False, False), ex_chain, {"quick": 600, "thorough": 80000},
+    Obligation("chain", chain_strategy(False, False), ex_chain, {"quick": 340, "thorough": 80000},
                _RULE_NET + "build_chain of 2..4 ChainNodes (plain), reads sent to the tail; ack clause at every node, "
                "reads against the tail's value history, convergence at quiescence. Non-trivial = inverted Propagate "
                "delivery for one key at some node."),
-    Obligation("chain-safe", chain_strategy(False, True), ex_chain, {"quick": 300, "thorough": 40000},
+    Obligation("chain-safe", chain_strategy(False, True), ex_chain, {"quick": 220, "thorough": 40000},
                "plain chain, restricted domain: writes to one key 128 ticks apart; no exclusions. Non-trivial = some "
                "key written at least twice."),
-    Obligation("craq", chain_strategy(True, False), ex_chain, {"quick": 700, "thorough": 100000},
+    Obligation("craq", chain_strategy(True, False), ex_chain, {"quick": 520, "thorough": 100000},
                _RULE_NET + "CRAQ chain of 2..4 nodes, up to 6 reads at any node at times 0..60 ticks. Non-trivial = "
                "inverted Propagate delivery or a read arriving while the nodes disagree on its key (write in flight)."),
-    Obligation("craq-safe", chain_strategy(True, True), ex_chain, {"quick": 350, "thorough": 40000},
+    Obligation("craq-safe", chain_strategy(True, True), ex_chain, {"quick": 260, "thorough": 40000},
                "CRAQ, restricted domain: writes to one key 128 ticks apart, read latency 0 and reads issued 1000 ns off the "
                "tick grid (dirty check and local read atomic); reads placed around the writes; no exclusions. Non-trivial = some "
                "key written twice and at least one read."),
-    Obligation("multi-leader", ml_strategy(False), ex_ml, {"quick": 450, "thorough": 60000},
+    Obligation("multi-leader", ml_strategy(False), ex_ml, {"quick": 340, "thorough": 60000},
                _RULE_NET + "2..3 LeaderNodes (LWW or vector-clock resolver), writers on different leaders (write times up to "
                "200 ticks, so anti-entropy rounds interleave with writes), same-instant writes included; anti-entropy from the start (interval 64/96/128 ticks, peer picks from the case then "
                "round-robin) and 4(n-1)+2 more rounds after the last delivery. Non-trivial = two writes to one key on "
                "different leaders, each made before the other's Replicate arrived, or inverted delivery."),
-    Obligation("multi-leader-safe", ml_strategy(True), ex_ml, {"quick": 200, "thorough": 24000},
+    Obligation("multi-leader-safe", ml_strategy(True), ex_ml, {"quick": 150, "thorough": 24000},
                "multi-leader, restricted domain: writes to one key 128 ticks apart (no concurrent writes). "
                "Non-trivial = some key written at least twice."),
-    Obligation("replicated-store", rs_strategy(False), ex_rs, {"quick": 700, "thorough": 100000},
+    Obligation("replicated-store", rs_strategy(False), ex_rs, {"quick": 520, "thorough": 100000},
                "ReplicatedStore over 2..4 KVStore replicas with independent read/write/delete latencies (0..4 ticks) and "
                "every consistency level; 1..4 client processes start at 0..12 ticks and issue put/delete/get on 2 keys. "
                "Non-trivial = two clients' mutations of one key overlap in time."),
-    Obligation("replicated-store-safe", rs_strategy(True), ex_rs, {"quick": 350, "thorough": 40000},
+    Obligation("replicated-store-safe", rs_strategy(True), ex_rs, {"quick": 260, "thorough": 40000},
                "same, restricted domain: delete_latency == write_latency on every replica (all mutations of one client "
                "advance through the replicas at the same pace). Non-trivial = overlapping mutations of one key."),
 ]
